@@ -43,6 +43,10 @@ def _case(draw, fams):
     if other < 2:
       two, n2 = True, 2
   ragged = draw(st.integers(0, B - 1)) if (draw(st.booleans()) and fam != "tfs") else 0
+  # an optional small (unblocked) axis between the two blocked axes: rank-3 layouts
+  mid = draw(st.sampled_from([0, 0, 2, B - 1])) if (two and B >= 3) else 0
+  if mid < 2:
+    mid = 0
   nblocks = (n1 + (1 if ragged else 0)) * (n2 if two else 1)
   scales = [draw(st.sampled_from([0, 0, -6, -3, -1, 1, 3, 6])) for _ in range(nblocks)]
   ncomp = draw(st.sampled_from([0, 1, 1, 2]))
@@ -62,7 +66,7 @@ def _case(draw, fams):
        "beta2": draw(st.sampled_from([0.9, 0.99, 1.0])), "beta1": draw(st.sampled_from([0.0, 0.9])),
        "start": draw(st.sampled_from([0, 1])), "nesterov": draw(st.booleans()),
        "ptype": draw(st.sampled_from(["ALL", "ALL", "INPUT", "OUTPUT"]))}
-  return {"fam": fam, "B": B, "n1": n1, "n2": n2, "other": other, "ragged": ragged, "scales": scales,
+  return {"fam": fam, "B": B, "n1": n1, "n2": n2, "other": other, "ragged": ragged, "mid": mid, "scales": scales,
           "companions": comps, "steps": steps, "o": o}
 
 
@@ -96,8 +100,13 @@ def layout(case):
   else:
     d1 = other
     cells1 = [(0, other)]
-  shape = (d0, d1)
-  blocks = [(slice(a, b), slice(c, d)) for (a, b), (c, d) in itertools.product(cells0, cells1)]
+  mid = case.get("mid", 0)
+  if mid:
+    shape = (d0, mid, d1)
+    blocks = [(slice(a, b), slice(None), slice(c, d)) for (a, b), (c, d) in itertools.product(cells0, cells1)]
+  else:
+    shape = (d0, d1)
+    blocks = [(slice(a, b), slice(c, d)) for (a, b), (c, d) in itertools.product(cells0, cells1)]
   return shape, blocks
 
 
@@ -175,15 +184,15 @@ def check(case):
     # tearfree pads the ragged axis with zeros; the equivalent separate parameters are the padded blocks
     B = case["B"]
     pad = B - case["ragged"]
-    full_shape = (shape[0] + pad, shape[1])
-    pblocks = [(slice(sl[0].start, sl[0].start + B), sl[1]) for sl in blocks]
+    full_shape = (shape[0] + pad,) + tuple(shape[1:])
+    pblocks = [(slice(sl[0].start, sl[0].start + B),) + tuple(sl[1:]) for sl in blocks]
   else:
     pad = 0
     full_shape = shape
     pblocks = blocks
 
   def padded(a):
-    return np.pad(a, ((0, pad), (0, 0))) if pad else a
+    return np.pad(a, ((0, pad),) + ((0, 0),) * (a.ndim - 1)) if pad else a
 
   opt_a = _ds_opt(case) if fam == "ds" else _tf_opt(case, fam == "tf")
   # A: the blocked tensor alone
@@ -198,7 +207,7 @@ def check(case):
     ua = padded(outs_a[c]["x"])
     for k, sl in enumerate(pblocks):
       a, b = ua[sl], outs_b[c][f"b{k:02d}"]
-      real = (slice(0, blocks[k][0].stop - blocks[k][0].start), slice(None))
+      real = (slice(0, blocks[k][0].stop - blocks[k][0].start),) + (slice(None),) * (len(shape) - 1)
       a, b = a[real], b[real]
       tag = (f"{fam} step {c} block {k} (scale 1e{case['scales'][k]}, scales {case['scales']}, B={case['B']}, "
              f"graft {o['graft']}, ptype {o['ptype']})")
@@ -253,6 +262,6 @@ def check(case):
                     f"ds: a state leaf of the parameter differs by {_close(a, b, 1):.3g} with companions present")
         changed_max = max([max(cc["shape"]) for cc in case["companions"]]) > case["B"]
   span = max(case["scales"]) - min(case["scales"])
-  classes = [f"fam={fam}", "two-axes" if case["n2"] else "one-axis", "ragged" if case["ragged"] else "even",
+  classes = [f"fam={fam}", "rank3" if case.get("mid") else "rank2", "two-axes" if case["n2"] else "one-axis", "ragged" if case["ragged"] else "even",
              "grafted" if grafted else "ungrafted", f"span=1e{span}"]
   return Result(span >= 3 or changed_max, classes, metrics={"tolerance_ratio": worst}, sub=len(seq))
